@@ -438,6 +438,8 @@ func outLast() any                               { return nil }
 //@ func (*Executor).execUnaryNode
 //@ props C01 C10 C13
 //@ atcall executeNextItem assert [C09 C10] outer-item-again: exec.current == old(exec.current)
+//@ atcall executeNestedBoolItem assert [C10 C07] condition-by-the-rules-of-the-mode: exec.ignoreStructuralErrors == exec.path.IsLax()
+//@ atcall executeNextItem assert [C07 C09 C15] relaxation-below-anypath-kept: exec.ignoreStructuralErrors == old(exec.ignoreStructuralErrors)
 //@ ensures [C10] filter-unwrap: node.Operator() == ast.UnaryFilter && unwrap && is[[]any](value) ==> ncalls(exec.executeItemUnwrapTargetArray) == 1 && callarg[any](exec.executeItemUnwrapTargetArray, "value") == value && callarg[*valueList](exec.executeItemUnwrapTargetArray, "found") == found && ncalls(exec.executeNestedBoolItem) == 0 && r0 == callret[resultStatus](exec.executeItemUnwrapTargetArray, 0) && r1 == callret[error](exec.executeItemUnwrapTargetArray, 1)
 //@ ensures [C10] filter-eval: node.Operator() == ast.UnaryFilter && !(unwrap && is[[]any](value)) ==> ncalls(exec.executeNestedBoolItem) == 1 && callarg[any](exec.executeNestedBoolItem, "value") == value && callarg[ast.Node](exec.executeNestedBoolItem, "node") == node.Operand()
 //@ ensures [C10] filter-keep: node.Operator() == ast.UnaryFilter && !(unwrap && is[[]any](value)) && callret[predOutcome](exec.executeNestedBoolItem, 0) == predTrue ==> ncalls(exec.executeNextItem) == 1 && callarg[any](exec.executeNextItem, "value") == value && callarg[*valueList](exec.executeNextItem, "found") == found && r0 == callret[resultStatus](exec.executeNextItem, 0) && r1 == callret[error](exec.executeNextItem, 1)
